@@ -155,3 +155,124 @@ fn to_engine_config(c: &VEngineCfg) -> ZmtpEngineConfig {
 pub fn new_engine(is_server: bool, cfg: &VEngineCfg) -> ZmtpEngine {
   ZmtpEngine::new(is_server, Arc::new(to_engine_config(cfg)))
 }
+
+// ---------------------------------------------------------------------------------------------
+// Routing level: subscription trie, load balancer, ROUTER map, envelope framing, back-off
+// ---------------------------------------------------------------------------------------------
+
+pub struct VTrie(crate::socket::patterns::trie::SubscriptionTrie);
+
+impl VTrie {
+  pub fn new() -> Self {
+    Self(crate::socket::patterns::trie::SubscriptionTrie::new())
+  }
+  pub fn subscribe(&self, topic: &[u8]) {
+    self.0.subscribe(topic)
+  }
+  pub fn unsubscribe(&self, topic: &[u8]) -> bool {
+    self.0.unsubscribe(topic)
+  }
+  pub fn matches(&self, topic: &[u8]) -> bool {
+    self.0.matches(topic)
+  }
+  pub fn get_all_topics(&self) -> Vec<Vec<u8>> {
+    self.0.get_all_topics()
+  }
+}
+
+pub struct VLoadBalancer(crate::socket::patterns::load_balancer::LoadBalancer);
+
+impl VLoadBalancer {
+  pub fn new() -> Self {
+    Self(crate::socket::patterns::load_balancer::LoadBalancer::new())
+  }
+  pub fn add(&self, uri: &str) {
+    self.0.add_connection(
+      uri.to_string(),
+      Arc::new(crate::socket::connection_iface::DummyConnection),
+    )
+  }
+  pub fn remove(&self, uri: &str) {
+    self.0.remove_connection(uri)
+  }
+  pub fn next(&self) -> Option<String> {
+    self.0.get_next_connection().map(|p| p.uri.clone())
+  }
+  pub fn count(&self) -> usize {
+    self.0.connection_count()
+  }
+}
+
+pub struct VRouterMap(crate::socket::patterns::router::RouterMap);
+
+impl VRouterMap {
+  pub fn new() -> Self {
+    Self(crate::socket::patterns::router::RouterMap::new())
+  }
+  pub async fn add_peer(&self, identity: &[u8], pipe_read_id: usize, uri: &str) {
+    self
+      .0
+      .add_peer(crate::Blob::from(identity.to_vec()), pipe_read_id, uri.to_string())
+      .await
+  }
+  pub async fn update_peer_identity(&self, pipe_read_id: usize, identity: &[u8], uri: &str, peer_type: Option<&str>) {
+    self
+      .0
+      .update_peer_identity(pipe_read_id, crate::Blob::from(identity.to_vec()), uri, peer_type)
+      .await
+  }
+  pub async fn remove_peer_by_read_pipe(&self, pipe_read_id: usize) {
+    self.0.remove_peer_by_read_pipe(pipe_read_id).await
+  }
+  pub async fn remove_peer_by_identity(&self, identity: &[u8]) {
+    self.0.remove_peer_by_identity(&crate::Blob::from(identity.to_vec())).await
+  }
+  /// `(uri, strategy name)` for an identity
+  pub async fn lookup(&self, identity: &[u8]) -> Option<(String, String)> {
+    self
+      .0
+      .get_peer_info_for_identity(&crate::Blob::from(identity.to_vec()))
+      .await
+      .map(|i| (i.uri.clone(), format!("{:?}", i.strategy)))
+  }
+  pub async fn identity_of_pipe(&self, pipe_read_id: usize) -> Option<Vec<u8>> {
+    self.0.get_identity_by_read_pipe(pipe_read_id).await.map(|b| b.as_ref().to_vec())
+  }
+  /// `prepare_wire_frames` of the strategy currently attached to `identity`, with a ROUTER framing latch in
+  /// auto or manual mode.
+  pub async fn prepare(&self, identity: &[u8], manual: bool, id_frame: Msg, payload: FrameBatch) -> Option<FrameBatch> {
+    use crate::socket::patterns::framing::{router_auto_decode, router_auto_encode, FramingLatch};
+    let info = self
+      .0
+      .get_peer_info_for_identity(&crate::Blob::from(identity.to_vec()))
+      .await?;
+    let latch = FramingLatch::new(router_auto_encode, router_auto_decode);
+    if manual {
+      latch.set_manual();
+    }
+    Some(info.strategy.prepare_wire_frames(id_frame, payload, &latch))
+  }
+}
+
+pub fn v_router_auto_encode(f: &mut FrameBatch) {
+  crate::socket::patterns::framing::router_auto_encode(f)
+}
+pub fn v_router_auto_decode(f: &mut FrameBatch) {
+  crate::socket::patterns::framing::router_auto_decode(f)
+}
+pub fn v_dealer_auto_encode(f: &mut FrameBatch) {
+  crate::socket::patterns::framing::dealer_auto_encode(f)
+}
+pub fn v_dealer_auto_decode(f: &mut FrameBatch) {
+  crate::socket::patterns::framing::dealer_auto_decode(f)
+}
+
+/// `ReconnectState::on_connection_failure` after `attempts` earlier failures; returns the delay.
+pub fn v_reconnect_delay(attempts: u32, base: Duration, max: Duration) -> (Duration, u32) {
+  let mut st = crate::socket::core::state::ReconnectState {
+    current_attempts: attempts,
+    next_attempt_at: None,
+  };
+  let d = st.on_connection_failure(base, max);
+  (d, st.current_attempts)
+}
